@@ -6,7 +6,11 @@ Open Scope string_scope.
 Notation obs_t := (res (Circuit * list (string * list string))).
 Inductive case :=
 | CUnroll (C : Circuit) (n : nat) (sio : list (string * string)) (prefix : string) (obs : obs_t)
-| CSeq (C : Circuit) (n : nat) (d q : string) (ign : list string) (afo : bool) (iv : init_vals) (ru : bool) (prefix : string) (obs : obs_t).
+| CSeq (C : Circuit) (n : nat) (d q : string) (ign : list string) (afo : bool) (iv : init_vals) (ru : bool) (prefix : string) (obs : obs_t)
+(* the argument circuit (graph AND blackbox registry, by content) was dumped before and after the call: the flag says it is unchanged *)
+| CKeep (k : case) (arg_unchanged : bool)
+(* two calls on the SAME circuit object, one after the other (different n / flags); the flag says the argument never changed *)
+| CTwice (a b : case) (arg_unchanged : bool).
 
 Definition norm (o : obs_t) : res (Circuit * iomap) := rmap (λ r, (r.1, list_to_map r.2)) o.
 
@@ -118,7 +122,7 @@ Definition seq_ok (C : Circuit) (n : nat) (d q : string) (afo : bool) (iv : init
                         (λ nd, match list_find (λ p, p.1.2 = nd) qd with Some (_, p) => w (x0 p.1.1) | None => false end))
           (vals frU).
 
-Definition holds (k : case) : bool :=
+Fixpoint holds (k : case) : bool :=
   match k with
   | CUnroll C n sio p obs =>
       if unroll_domain C n sio p then
@@ -136,10 +140,12 @@ Definition holds (k : case) : bool :=
         | _ => false
         end
       else true
+  | CKeep k' u => holds k' && u
+  | CTwice a b u => holds a && holds b && u
   end.
 
 (* ---------------- correspondence ---------------- *)
-Definition agree (k : case) : bool :=
+Fixpoint agree (k : case) : bool :=
   match k with
   | CUnroll C n sio p obs =>
       bool_decide (unroll C n sio p = norm obs) &&
@@ -162,5 +168,7 @@ Definition agree (k : case) : bool :=
          | _, _ => true
          end
        else true)
+  | CKeep k' _ => agree k'
+  | CTwice a b _ => agree a && agree b
   end.
 
